@@ -112,7 +112,7 @@ fn frames_of(m: &ProguardMapper, c: &str, meth: &str, line: usize, file: Option<
 /// order of distinctly named class blocks.
 pub fn oracle_c01(rng: &mut Rng, tier: &str) -> Report {
     let mut rep = Report::new();
-    let n = if thorough(tier) { 3000 } else { 1200 };
+    let n = if thorough(tier) { 12000 } else { 1200 };
     for _ in 0..n {
         let mut cfg = Cfg::domain();
         cfg.term = Some(Term::Lf);
@@ -377,7 +377,7 @@ pub fn oracle_c06(rng: &mut Rng, tier: &str) -> Report {
     }
     rep.stats.insert("bounded_exhaustive_strings".into(), total);
     // token soups and hostile mappings, split at random positions
-    let n = if th { 200_000 } else { 80000 };
+    let n = if th { 800000 } else { 80000 };
     for i in 0..n {
         let a = if i % 3 == 0 { soup(rng, 80) } else { let g = gen_mapping(rng, &Cfg::hostile()); if i % 3 == 1 { mutate(rng, &g.text) } else { g.text } };
         let b = if i % 2 == 0 { soup(rng, 80) } else { gen_mapping(rng, &Cfg::hostile()).text };
@@ -424,7 +424,7 @@ fn normalise_terminators(input: &str) -> String {
 
 pub fn oracle_c07(rng: &mut Rng, tier: &str) -> Report {
     let mut rep = Report::new();
-    let n = if thorough(tier) { 20000 } else { 8000 };
+    let n = if thorough(tier) { 80000 } else { 8000 };
     // the mapping knows only classes that cannot occur in the generated traces
     let mapping: &'static [u8] = b"o.A -> qq.q1:\n    1:3:void x():1:3 -> m\no.B -> qq.q2:\n";
     let mapper = proto::cur::mapper(mapping, true);
@@ -471,7 +471,7 @@ fn depth(t: &StackTrace) -> usize {
 
 pub fn oracle_c08(rng: &mut Rng, tier: &str) -> Report {
     let mut rep = Report::new();
-    let n = if thorough(tier) { 3000 } else { 1200 };
+    let n = if thorough(tier) { 12000 } else { 1200 };
     for i in 0..n {
         let text = domain_mapping(rng, &Cfg::domain());
         let ms: &'static [u8] = Box::leak(text.clone().into_boxed_slice());
@@ -658,7 +658,7 @@ pub fn query_universe(rng: &mut Rng, u: &Universe, nlines: usize) -> Vec<Query> 
 pub fn oracle_c10(rng: &mut Rng, tier: &str) -> Report {
     let mut rep = Report::new();
     let th = thorough(tier);
-    let n = if th { 4000 } else { 1400 };
+    let n = if th { 16000 } else { 1400 };
     let mut mappings: Vec<Vec<u8>> = Vec::new();
     for i in 0..n {
         mappings.push(if i % 6 == 5 { gen_mapping(rng, &Cfg::hostile()).text } else { domain_mapping(rng, &Cfg::domain()) });
@@ -731,7 +731,7 @@ pub fn oracle_c10(rng: &mut Rng, tier: &str) -> Report {
 pub fn oracle_c11(rng: &mut Rng, tier: &str) -> Report {
     let mut rep = Report::new();
     let th = thorough(tier);
-    let n = if th { 3000 } else { 1200 };
+    let n = if th { 12000 } else { 1200 };
     for i in 0..n {
         let mut cfg = Cfg::domain();
         if i % 3 == 0 {
@@ -826,7 +826,7 @@ pub fn fnv(bytes: &[u8]) -> u64 {
 
 fn c14_mappings(seed: u64, tier: &str) -> Vec<Vec<u8>> {
     let mut rng = Rng::new(seed ^ 0xC14);
-    let n = if thorough(tier) { 1500 } else { 800 };
+    let n = if thorough(tier) { 6000 } else { 800 };
     let mut v = Vec::new();
     for i in 0..n {
         let mut cfg = if i % 3 == 0 { Cfg::hostile() } else { Cfg::domain() };
@@ -982,7 +982,7 @@ impl Write for ScriptSink {
 pub fn oracle_c15(rng: &mut Rng, tier: &str) -> Report {
     let mut rep = Report::new();
     let th = thorough(tier);
-    let n = if th { 400 } else { 160 };
+    let n = if th { 1600 } else { 160 };
     for i in 0..n {
         let mut cfg = Cfg::domain();
         cfg.max_classes = 3;
@@ -1058,7 +1058,7 @@ pub fn oracle_c15(rng: &mut Rng, tier: &str) -> Report {
 
 pub fn oracle_c17(rng: &mut Rng, tier: &str) -> Report {
     let mut rep = Report::new();
-    let n = if thorough(tier) { 100_000 } else { 40000 };
+    let n = if thorough(tier) { 400000 } else { 40000 };
     let u = universe(b"o.A -> a:\n    1:3:void x():1:3 -> m\no.B$C -> a.b$c:\n    void <init>() -> <init>\n");
     let tg = TraceGen { u: &u };
     for i in 0..n {
@@ -1139,7 +1139,7 @@ fn static_assertions() {
 pub fn oracle_c20(rng: &mut Rng, tier: &str) -> Report {
     let mut rep = Report::new();
     rep.stats.insert("send_sync_types_asserted_at_compile_time".into(), 15);
-    let n = if thorough(tier) { 400 } else { 160 };
+    let n = if thorough(tier) { 1600 } else { 160 };
     for i in 0..n {
         let text = domain_mapping(rng, &Cfg::domain());
         let ms: &'static [u8] = Box::leak(text.clone().into_boxed_slice());
